@@ -197,6 +197,8 @@ def literal_texts(run):
         add("mixed", t)
     for t in variable_texts(run, rng):
         add("variable", t)
+    for t, _ in surrogate_literals():
+        add("surrogates", t)
     for fam in near_duplicate_families():
         for t, _ in fam:
             add("near-duplicate", t)
@@ -334,6 +336,36 @@ def near_duplicate_families():
     return fams
 
 
+def surrogate_values():
+    """strings with surrogate code points in every arrangement: lone high, lone low, high+low adjacent, low+high,
+    separated, repeated, next to astral and ordinary characters"""
+    H = ["\ud800", "\ud83d", "\udbff"]
+    L = ["\udc00", "\ude00", "\udfff"]
+    out = []
+    for h in H:
+        for l in L:
+            out += [h, l, h + l, l + h, h + "x" + l, h + h + l, h + l + l, h + l + h + l, "a" + h + l + "b", h + " " + l, l + l, h + h,
+                    "\U0001f600" + h + l, h + l + "\U0001f600", h + "\\" + l, h + "'" + l, h + "`" + l, "\n" + h + l + "\n"]
+    return list(dict.fromkeys(out))
+
+
+def surrogate_literals():
+    """(literal text, value): the same arrangements spelled with \\uXXXX escapes, raw, and mixed"""
+    out = []
+    for v in surrogate_values():
+        if any(c in v for c in "\\'`\n"):
+            continue
+        esc = "".join("\\u%04x" % ord(c) if 0xd800 <= ord(c) < 0xe000 else c for c in v)
+        half = "".join("\\u%04x" % ord(c) if 0xd800 <= ord(c) < 0xdc00 else c for c in v)
+        half2 = "".join("\\u%04x" % ord(c) if 0xdc00 <= ord(c) < 0xe000 else c for c in v)
+        big = "".join("\\U%08x" % ord(c) if 0xd800 <= ord(c) < 0xe000 else c for c in v)
+        for body in (esc, half, half2, big, v):
+            out.append(("'" + body + "'", v))
+            out.append(('"' + body + '"', v))
+        out.append(("`" + v + "`", v))
+    return out
+
+
 BIASED = ["\\", "\\", "'", '"', "`", "\n", "\\n", "\\x41", "\\u", "\\N{", "}", "a", "z", " ", "\t", "0", "7", "\x00",
           "\ud800", "é", "\U0001f600", "\\\\", "\\`", "\\'", "$", "(", "\r"]
 
@@ -342,6 +374,7 @@ def spelling_values(run):
     rng = run.rng
     vals = [("cp", chr(cp)) for cp in code_points(run)]
     vals += [("cp", chr(cp)) for cp in ASTRAL]
+    vals += [("surrogates", v) for v in surrogate_values()]
     vals += [("fixed", s) for s in ["", "\\", "\\\\", "\\\\\\", "`", "\\`", "\\\\`", "\\\\\\`", "a\\", "a\\\\", "\\\n", "\\\\\n",
                                      "'", '"', "it's", 'say "hi"', "a\\b", "C:\\dir\\", "\\x41", "\\N{BULLET}", "\n", "\\n",
                                      "`\\", "\\``", "x\\`y", "x\\\\`y", "'\"`\\", "\\'", '\\"']]
@@ -483,6 +516,14 @@ def oracle(run, deep):
     def expect(form, text, value):
         o = observe(text)
         run.count("oracle:escape:" + form)
+        if o[0] == "val" and o[2] == ("text", value):
+            # the evaluated (finalised) value too, under the default output conversion
+            try:
+                v = lc.engine()(text).evaluate(context=ctx())
+                if not (isinstance(v, str) and v == value):
+                    o = ("evaluates to", [ord(c) for c in v] if isinstance(v, str) else repr(v))
+            except Exception as e:
+                o = ("evaluate raised", lc.qualname(e))
         if not (o[0] == "val" and o[2] == ("text", value)) and form not in esc_failed:
             esc_failed.add(form)
             run.fail("violation", "an escape sequence does not decode as documented (%s)" % form,
@@ -516,6 +557,8 @@ def oracle(run, deep):
             expect("an escape followed by %s" % ESC_TAIL_NAMES[j], q + head + tail + q, hv + tv)
     for text, value in ESC_LITERAL:
         expect("an incomplete escape stays as written", text, value)
+    for text, value in surrogate_literals():
+        expect("surrogate code points, escaped or raw, read back as exactly the code points spelled", text, value)
     # one literal mixing genuine escapes, stray backslashes before characters of every plane, raw text
     for text, value in mixed_literals(run, rng):
         expect("a literal mixing escapes with stray backslashes and raw characters", text, value)
